@@ -147,19 +147,25 @@ def parseUint (s : Bytes) (base : Nat) : Except NumErr Nat :=
   | .error e => .error e
   | .ok (n, u) => if u = true ∧ underscoreOK s = false then .error .syntax else .ok n
 
+/-- sign handling of `ParseInt`: (negative, rest) -/
+def signSplit (s : Bytes) : Bool × Bytes :=
+  match s with
+  | 43 :: r => (false, r)
+  | 45 :: r => (true, r)
+  | _ => (false, s)
+
+/-- range check and sign application of `ParseInt` (bitSize 64) on the result of `ParseUint` -/
+def intOfUint (neg : Bool) : Except NumErr Nat → Except NumErr Int
+  | .error e => .error e
+  | .ok un =>
+    if neg = false ∧ un ≥ 9223372036854775808 then .error .range
+    else if neg = true ∧ un > 9223372036854775808 then .error .range
+    else .ok (if neg then -(un : Int) else (un : Int))
+
 /-- `strconv.ParseInt(s, base, 64)` -/
 def parseInt (s : Bytes) (base : Nat) : Except NumErr Int :=
   if s = [] then .error .syntax else
-  let sb : Bool × Bytes := match s with
-    | 43 :: r => (false, r)
-    | 45 :: r => (true, r)
-    | _ => (false, s)
-  match parseUint sb.2 base with
-  | .error e => .error e
-  | .ok un =>
-    if sb.1 = false ∧ un ≥ 9223372036854775808 then .error .range
-    else if sb.1 = true ∧ un > 9223372036854775808 then .error .range
-    else .ok (if sb.1 then -(un : Int) else (un : Int))
+  intOfUint (signSplit s).1 (parseUint (signSplit s).2 base)
 
 def numErrTag (fn : String) : NumErr → String
   | .syntax => eOther ("strconv." ++ fn ++ ":syntax")
